@@ -21,6 +21,11 @@ CUSTOM_TYPES = ['clientbound.play.explosion_packet:ExplosionPacket.Record',
                 'clientbound.play.sound_effect_packet:SoundEffectPacket.Pitch']
 
 
+CUSTOM_PACKETS = ['serverbound.login:PluginResponsePacket', 'clientbound.play.face_player_packet:FacePlayerPacket',
+                  'clientbound.play.combat_event_packet:CombatEventPacket', 'clientbound.play.spawn_object_packet:SpawnObjectPacket',
+                  'clientbound.play.player_list_item_packet:PlayerListItemPacket', 'clientbound.play.map_packet:MapPacket']
+
+
 def class_list(t):
     cl = set()
     for p in t['per_version']:
@@ -154,6 +159,7 @@ def gen_tables(t, outdir):
         ent.append('  (%d, [%s])' % (cidx[c], '; '.join('(%d, %s)' % (i, 'None' if v is None else 'Some ' + v) for i, v in lad)))
     L.append('Definition defs_l : list (Z * ladder (option defn)) := [\n' + ';\n'.join(ent) + '\n].')
     L.append('Definition custom_classes : list Z := %s.' % zl(custom))
+    L.append('Definition custom_modelled : list Z := %s.' % zl([cidx[c] for c in classes if c in CUSTOM_PACKETS]))
     L.append('Definition members (tbl vi : Z) : list Z := match ladder_get (assoc members_l tbl []) vi None with Some l => l | None => [] end.')
     L.append('Definition members_defined (tbl vi : Z) : bool := match ladder_get (assoc members_l tbl []) vi None with Some _ => true | None => false end.')
     L.append('Definition id_of (c vi : Z) : option Z := ladder_get (assoc ids_l c []) vi None.')
